@@ -1,4 +1,7 @@
 import GambitV.Gen.PyMatching
+import GambitV.Gen.PyLocate
+import GambitV.Gen.PySeqFiles
+import GambitV.Gen.PyAncestors
 import GambitV.Gen.PyFindMatches
 import GambitV.Gen.PyConsensus
 import GambitV.Gen.PyNext
@@ -130,6 +133,28 @@ def refdbInit (attr : Option Bool) (gids : List (Option Nat)) (sids : List Nat) 
     | .raised e => "err:" ++ e.name
     | .fuelOut => "!fuel"
   cmp "ReferenceDatabase.__init__" Gen.refdb_init.untranslatable g real
+
+/-- `ReferenceDatabase.locate_files` on a directory listing, in the wire form of `c04.locate` -/
+def locateFiles (names : List (List Char)) (real : String) : Option String :=
+  let g := match Gen.locate_files names () [] with
+    | .ok (g, s) => "ok:" ++ String.ofList g ++ ":" ++ String.ofList s
+    | .raised _ => "err"
+    | .fuelOut => "!fuel"
+  cmp "ReferenceDatabase.locate_files" Gen.locate_files.untranslatable g real
+
+/-- `get_sequence_files(explicit, listfile, listfile_dir)` generated from the current source (with `read_lines` and `get_file_id`), on the
+positional paths and on the lines iterating over the real list file yields: `id|path;…`, `~` = `(None, None)` -/
+def seqFiles (pos : List (List Char)) (lines : Option (List (List Char))) (ldir : List Char) (real : String) : Option String :=
+  let g := match Gen.get_sequence_files (lines.getD []) (some pos) (lines.map (fun _ => ())) (some ldir) true true with
+    | .ok (some (ids, files)) => ";".intercalate ((ids.zip files).map (fun x => String.ofList x.1 ++ "|" ++ String.ofList x.2))
+    | .ok none => "~"
+    | .raised e => "!" ++ e.name
+    | .fuelOut => "!fuel"
+  cmp "get_sequence_files" Gen.get_sequence_files.untranslatable g real
+
+/-- `Taxon.ancestors(incself)` generated from the current source against the real method -/
+def taxonAncestors (F : Forest) (t : Nat) (inc : Bool) (real : String) : Option String :=
+  cmp "Taxon.ancestors" Gen.taxon_ancestors.untranslatable (resStr natsOf (Gen.taxon_ancestors F t inc)) real
 
 /-- `calc_file_signatures` on files `0 … n-1` whose signatures are abstracted to their own index (`ok i` = file `i` succeeds), with the
 completion order `σ` (`none` = the sequential branch): `ok` = the list in file order, `err` = the call raises -/
